@@ -155,7 +155,7 @@ def check_ntm(ctx, batch, md, word, B, tag):
     csets = [{T.canon_cfg(c) for c in lv} for lv in items]
     i_ys = [sorted(T.num_cfg(cc, st, sy) for cc in lv) for lv in csets]
     acc = outcome(lambda: n.accepts_input(word)) if out[0] != "limit" else None
-    item = (3, 2, enc.tree([T.enc_ntm(md, st, sy), fuel, sy.word(word)]))
+    item = (3, 2, enc.tree([T.enc_ntm(md, st, sy), fuel, sy.word(word), 4 * LEVEL_CAP]))
     canon = enc.tree(T.enc_ntm(md, st, sy))
 
     def cont(ans):
